@@ -1,32 +1,52 @@
 (** C09 — Dataflow analyses equal the path-based solution in any visit order.
 
     Model: V.C09.Analysis (executable, mirrors cfg/analysis.py and CFG.analyze; tied to the
-    code by the correspondence harness props/C09).  All theorems are about the REPAIRED
-    re-queue policy (fix-1.patch: dummy neighbours are re-queued too); the policy as coded
-    in guppylang 0.21.6 is refuted by [order_dependent_as_coded_refuted].
+    code by the correspondence harness props/C09).  All positive theorems are about the
+    REPAIRED re-queue policy (props/C09/fix-1.patch: dummy neighbours are re-queued too);
+    the policy as released in guppylang 0.21.6 is refuted by
+    [order_dependent_as_coded_refuted].
     Quantifiers: every finite CFG [g] with in-range successor indices ([wf_cfg]), arbitrary
-    use/def sets, dummy edges, unreachable blocks, every initial set, and EVERY pop order
-    ([sched_run] relates the initial state to each state with an empty work list reachable
-    by popping arbitrary members of the work list).  No size bound anywhere. *)
+    use/def sets, dummy edges, unreachable blocks, every initial set, and EVERY pop order:
+    [sched_run step queue s s'] holds iff [s'] has an empty work list and is reached from
+    [s] by popping, each time, an arbitrary member of the work list.  No size bound.
+    Path-based solutions ([live_on_path], [dead_on_all_paths], [unassigned_before],
+    [assigned_before], [never_assigned_before]) are defined in Spec.v from the wording of
+    the property, without reference to the algorithm. *)
 From Coq Require Import List Bool Arith.
-From V.C09 Require Import Analysis Spec ProofsLive.
+From V.C09 Require Import Analysis Spec ProofsLive ProofsAssign ProofsTop ProofsPaths.
 Import ListNotations.
 
-(** ** Liveness *)
+(** ** Termination *)
 
-(* Termination: whatever the pop order, the work list empties; [live_fuel] iterations
-   suffice for [run_with]; the pop relation is well-founded from the initial state. *)
-Theorem live_run_terminates : forall incl g I, wf_cfg g = true -> forall sched,
-  fst (live_run Repaired incl g I sched) = [] /\
-  sched_run (live_step Repaired incl g) fst (live_init g I) (live_run Repaired incl g I sched).
-Proof. exact ProofsLive.live_run_terminates. Qed.
-Print Assumptions live_run_terminates.
+(* whatever the pop order the work list empties; [live_fuel] / [ass_fuel] iterations are
+   enough for [run_with], whose result is therefore a terminal state of [sched_run] *)
+Theorem run_terminates : forall g, wf_cfg g = true ->
+  (forall incl I sched,
+     fst (live_run Repaired incl g I sched) = [] /\
+     sched_run (live_step Repaired incl g) fst (live_init g I) (live_run Repaired incl g I sched)) /\
+  (forall D0 M0 sched,
+     fq (ass_run Repaired g D0 M0 sched) = [] /\
+     sched_run (ass_step Repaired g D0) fq (ass_init g D0 M0) (ass_run Repaired g D0 M0 sched)).
+Proof.
+  intros g W. split; intros.
+  - apply ProofsLive.live_run_terminates; auto.
+  - apply ProofsAssign.ass_run_terminates; auto.
+Qed.
+Print Assumptions run_terminates.
 
-(* Path characterisation at an empty work list, for every pop order.
-   x outside the initial set: live before b  <->  x is read on some path from b before
-   being reassigned (least solution).
-   x in the initial set (borrowed variables in CFG.analyze): NOT live before b  <->  on every
-   path from b, x is reassigned or the path ends before x is read, and no infinite path
+(* no infinite pop sequence exists from the initial liveness state (well-foundedness) *)
+Theorem live_pops_well_founded : forall incl g I, wf_cfg g = true ->
+  Acc (fun s2 s1 => linv incl g I s1 /\ exists b, In b (fst s1) /\ s2 = live_step Repaired incl g b s1)
+      (live_init g I).
+Proof. exact ProofsLive.live_pops_wf. Qed.
+Print Assumptions live_pops_well_founded.
+
+(** ** Liveness = path-based solution, for every pop order *)
+
+(* x outside the initial set: live before b  <->  x is read on some path from b before being
+   reassigned (least solution).
+   x in the initial set (the borrowed variables in CFG.analyze): NOT live before b  <->  on
+   every path from b, x is reassigned or the path ends before x is read, and no infinite path
    avoids both (greatest solution: the borrowed-variable rule of cfg.py, stated exactly). *)
 Theorem live_char : forall incl g I, wf_cfg g = true ->
   forall s', sched_run (live_step Repaired incl g) fst (live_init g I) s' ->
@@ -35,3 +55,138 @@ Theorem live_char : forall incl g I, wf_cfg g = true ->
     (In x I -> (~ In x (getv (snd s') b) <-> dead_on_all_paths incl g x b)).
 Proof. exact ProofsLive.live_terminal_char. Qed.
 Print Assumptions live_char.
+
+(* the property's wording, when nothing is borrowed *)
+Corollary live_char_plain : forall incl g, wf_cfg g = true ->
+  forall s', sched_run (live_step Repaired incl g) fst (live_init g []) s' ->
+  forall b x, b < nblocks g -> (In x (getv (snd s') b) <-> live_on_path incl g x b).
+Proof. intros incl g W s' H b x Hb. apply (live_char incl g [] W s' H b x Hb). intros []. Qed.
+Print Assumptions live_char_plain.
+
+(* the same with the path written out: p = b1 ... bk, b -> b1 -> ... -> bk flow edges,
+   x read in bk, x not assigned in b, b1, ..., b(k-1) *)
+Corollary live_char_explicit_paths : forall incl g, wf_cfg g = true ->
+  forall s', sched_run (live_step Repaired incl g) fst (live_init g []) s' ->
+  forall b x, b < nblocks g ->
+    (In x (getv (snd s') b) <-> exists p, live_witness incl g x b p).
+Proof. intros. rewrite <- live_on_path_iff_witness. apply live_char_plain; auto. Qed.
+Print Assumptions live_char_explicit_paths.
+
+(* the initial-set (borrowed variable) rule in positive form *)
+Theorem live_char_initial_positive : forall incl g I, wf_cfg g = true ->
+  forall s', sched_run (live_step Repaired incl g) fst (live_init g I) s' ->
+  forall b x, b < nblocks g -> In x I ->
+    (live_on_path incl g x b \/ (forall k, exists p, length p = k /\ idle_walk incl g x b p)) ->
+    In x (getv (snd s') b).
+Proof. exact live_initial_positive. Qed.
+Print Assumptions live_char_initial_positive.
+
+(** ** Definitely / maybe assigned = all-paths / some-path solution, for every pop order *)
+
+(* definitely assigned before b  <->  x is a known variable and NO path from a source (a block
+   without predecessors: the entry) to b leaves x unassigned *)
+Theorem def_char : forall g D0 M0, wf_cfg g = true ->
+  forall s', sched_run (ass_step Repaired g D0) fq (ass_init g D0 M0) s' ->
+  forall b x, b < nblocks g ->
+    (In x (getv (befD s') b) <-> In x (all_vars g D0) /\ ~ unassigned_before g D0 x b).
+Proof. intros g D0 M0 W s' H b x Hb. apply (ass_terminal_char g D0 M0 W s' H b x Hb). Qed.
+Print Assumptions def_char.
+
+(* maybe assigned before b  <->  SOME path into b assigns x (least solution); for the
+   variables of maybe_ass_before_entry the greatest solution, stated through its complement *)
+Theorem maybe_char : forall g D0 M0, wf_cfg g = true ->
+  forall s', sched_run (ass_step Repaired g D0) fq (ass_init g D0 M0) s' ->
+  forall b x, b < nblocks g ->
+    (~ In x M0 -> (In x (getv (befM s') b) <-> assigned_before g D0 x b)) /\
+    (In x M0 -> (~ In x (getv (befM s') b) <-> never_assigned_before g D0 x b)).
+Proof. intros g D0 M0 W s' H b x Hb. apply (ass_terminal_char g D0 M0 W s' H b x Hb). Qed.
+Print Assumptions maybe_char.
+
+(** ** Order independence *)
+
+Theorem order_independent : forall g, wf_cfg g = true ->
+  (forall incl I s1 s2,
+     sched_run (live_step Repaired incl g) fst (live_init g I) s1 ->
+     sched_run (live_step Repaired incl g) fst (live_init g I) s2 ->
+     same_sets (nblocks g) (snd s1) (snd s2)) /\
+  (forall D0 M0 s1 s2,
+     sched_run (ass_step Repaired g D0) fq (ass_init g D0 M0) s1 ->
+     sched_run (ass_step Repaired g D0) fq (ass_init g D0 M0) s2 ->
+     same_sets (nblocks g) (befD s1) (befD s2) /\ same_sets (nblocks g) (befM s1) (befM s2)).
+Proof.
+  intros g W. split; intros.
+  - eapply live_order_independent_lemma; eauto.
+  - eapply ass_order_independent_lemma; eauto.
+Qed.
+Print Assumptions order_independent.
+
+(* CFG.analyze: live_before, ass_before, maybe_ass_before do not depend on the two schedules *)
+Theorem cfg_analyze_order_independent : forall g D0 M0 inout, wf_cfg g = true ->
+  forall s1 s2 t1 t2,
+  let '(l, d, m) := cfg_analyze Repaired g D0 M0 inout s1 s2 in
+  let '(l', d', m') := cfg_analyze Repaired g D0 M0 inout t1 t2 in
+  same_sets (nblocks g) l l' /\ same_sets (nblocks g) d d' /\ same_sets (nblocks g) m m'.
+Proof. exact cfg_analyze_order_independent_lemma. Qed.
+Print Assumptions cfg_analyze_order_independent.
+
+(** ** Refutations (findings) *)
+
+Definition pue_cfg : cfg :=   (* entry P = 0, exit E = 1, unreachable U = 2 reading x = 7 *)
+  [mkBlock [1] [2] [] []; mkBlock [] [] [] []; mkBlock [1] [] [7] []].
+Definition pue_fwd : cfg :=   (* P assigns 3, U assigns 4; P ~> U dummy, U -> E *)
+  [mkBlock [1] [2] [] [3]; mkBlock [] [] [] []; mkBlock [1] [] [] [4]].
+
+(* with the re-queue AS RELEASED (real neighbours only) two pop orders of the same CFG end
+   with an empty work list and different sets: liveness of x before the entry, and the
+   definitely-assigned set before the unreachable block *)
+Theorem order_dependent_as_coded_refuted :
+  (exists g I s1 s2 b x, wf_cfg g = true /\
+     fst (live_run Coded true g I s1) = [] /\ fst (live_run Coded true g I s2) = [] /\
+     b < nblocks g /\
+     ~ In x (getv (liveness Coded true g I s1) b) /\ In x (getv (liveness Coded true g I s2) b)) /\
+  (exists g D0 M0 s1 s2 b x, wf_cfg g = true /\
+     fq (ass_run Coded g D0 M0 s1) = [] /\ fq (ass_run Coded g D0 M0 s2) = [] /\
+     b < nblocks g /\
+     ~ In x (getv (fst (assignment Coded g D0 M0 s1)) b) /\ In x (getv (fst (assignment Coded g D0 M0 s2)) b)).
+Proof.
+  split.
+  - exists pue_cfg, [], [0; 0; 0], [2; 1; 0], 0, 7. vm_compute. repeat split; auto; try (intros []).
+  - exists pue_fwd, [5], [5; 6], [0; 0; 0; 0; 0], [2; 0; 0; 0; 0], 2, 4. vm_compute. repeat split; auto;
+    try (intros [H|[H|[]]]; discriminate).
+Qed.
+Print Assumptions order_dependent_as_coded_refuted.
+
+(* the literal wording ("live = read on some path before being reassigned") fails for a
+   borrowed variable that is reassigned after a loop: CFG.analyze reports x = 0 live before
+   the loop header 2 although no path from 2 reads x before block 3 reassigns it *)
+Theorem live_plain_wording_refuted_for_borrowed :
+  exists g inout b x, wf_cfg g = true /\ b < nblocks g /\
+    (let '(l, _, _) := cfg_analyze Repaired g [x] [x] inout [] [] in In x (getv l b)) /\
+    ~ live_on_path true (with_exit_uses g inout) x b.
+Proof.
+  exists borrow_cfg, [0], 2, 0. split; [reflexivity|]. split; [vm_compute; auto|]. split.
+  - vm_compute. auto.
+  - intros H. apply borrow_not_on_path in H. discriminate.
+Qed.
+Print Assumptions live_plain_wording_refuted_for_borrowed.
+
+(** ** The hypotheses are satisfiable on a non-trivial instance
+    (a loop 2 -> 2, an `if False` dummy edge 0 ~> 4 into unreachable block 4 which jumps into
+    the loop, a borrowed variable 2): the CFG is well formed, a terminal state exists for an
+    arbitrary schedule, and the sets are the expected ones. *)
+Definition ex_cfg : cfg :=
+  [mkBlock [2] [4] [] [0]; mkBlock [] [] [] []; mkBlock [2; 3] [] [0] [1];
+   mkBlock [1] [] [1] []; mkBlock [2] [] [2] [0]].
+
+Example ex_nontrivial :
+  wf_cfg ex_cfg = true /\
+  (exists s', sched_run (live_step Repaired true ex_cfg) fst (live_init ex_cfg [2]) s') /\
+  (let '(l, d, m) := cfg_analyze Repaired ex_cfg [2] [2] [2] [3; 1; 4; 1; 5] [9; 2; 6] in
+   (norm_vals l, norm_vals d, norm_vals m)) =
+  ([[2]; [2]; [0; 2]; [1; 2]; [2]],
+   [[2]; [0; 1; 2]; [0; 2]; [0; 1; 2]; [0; 2]],
+   [[2]; [0; 1; 2]; [0; 1; 2]; [0; 1; 2]; [0; 2]]).
+Proof.
+  split; [reflexivity|]. split; [|vm_compute; reflexivity].
+  eexists. apply (ProofsLive.live_run_terminates true ex_cfg [2] eq_refl [1; 0; 3]).
+Qed.
